@@ -358,7 +358,7 @@ func notV(a value) value {
 
 func isStr(v value) bool {
 	switch v.(type) {
-	case string, symstr:
+	case string, symstr, opaque:
 		return true
 	}
 	return false
@@ -375,6 +375,8 @@ func strBytes(v value) []value {
 		return out
 	case symstr:
 		return v.b
+	case opaque:
+		panic(pathEnd{"unsupported", "content of an untracked string is needed (" + v.what + ") at " + P.site()})
 	}
 	panic(fmt.Sprintf("engine: strBytes(%T)", v))
 }
@@ -385,6 +387,8 @@ func strLen(v value) int {
 		return len(v)
 	case symstr:
 		return len(v.b)
+	case opaque:
+		panic(pathEnd{"unsupported", "length of an untracked string is needed (" + v.what + ") at " + P.site()})
 	}
 	panic(fmt.Sprintf("engine: strLen(%T)", v))
 }
